@@ -157,7 +157,8 @@ def run(ck: Check) -> None:
         kind, tb, ub, t, u = pairs[i]
         m = model[i]
         ck.count(f"verify:{kind}:exit{rc}")
-        success_line = "successful" in out
+        low = out.lower()
+        success_line = (any(w in low for w in ("success", "verified", "trusted", "valid")) and not any(w in low for w in ("fail", "error", "invalid", "not ", "abort")))
         want_accept = (tb is not None and ub is not None and kind != "not-json" and library_accepts(t, u))
         if tb is not None and ub is not None and kind != "not-json":
             ck.nontrivial_add((ep, i))
